@@ -67,7 +67,7 @@ def run(tier, seed):
                 qs.append(Query(new, src + '\n\n' + copy_fn(src, 'header', new, 'kind == %d and len(name) == %d and ind == %d' % (kind, ln, ind)),
                                 new, 'main', 200 if tier == 'quick' else 500, per_path=60, meta={'fn': 'header'}, label='S'))
     for form in range(9):
-        for mi in range(4):
+        for mi in range(3):
             new = 'imports_f%d_m%d' % (form, mi)
             qs.append(Query(new, src + '\n\n' + copy_fn(src, 'imports', new, 'form == %d and mi == %d' % (form, mi)),
                             new, 'main', 200, per_path=60, meta={'fn': 'imports'}, label='E'))
@@ -86,7 +86,7 @@ def run(tier, seed):
                      'linter.lint (W01/W02 positions)', 'assistant.location']
     rep.bounds = ['(S) def / async def / class headers: name = any string of 1..3 letters of "acdefilmoprsty" (so that it can collide with '
                   'keywords of the header) except Python keywords, 1..3 spaces before and 0..2 after the name, optional decorator, top level or nested',
-                  '(E) 9 import statement forms (plain, as, several aliases, dotted, x as y + y as x, parenthesised over two lines) x 4^4 '
+                  '(E) 9 import statement forms (plain, as, several aliases, dotted, x as y + y as x, parenthesised over two lines) x 3*5*5*3 '
                   'identifiers chosen to collide with "from", "import", "as" and with each other x spacing',
                   '(E) %d programs: every binding kind; text at the reported position is the identifier ("except" for except-as); '
                   'lint and location() report the positions all_names has' % n]
